@@ -1094,6 +1094,8 @@ func (w *world) exec1(op string) string {
 		return w.cross(f[1], num(2))
 	case "forced":
 		return w.forced(f[1], f[2])
+	case "overlap":
+		return w.overlap(f[1], num(2))
 	case "stress":
 		seed, _ := strconv.ParseUint(f[4], 10, 64)
 
